@@ -174,12 +174,26 @@ ROUND9 = {
  "C19": " Busy-manager cases with a second connection ending after the good reply was queued.",
  "C20": " Messages of unknown kinds (BEP 10 extended, BEP 5 port) as signs of life; inactivity close while the manager's queue is full.",
 }
+ROUND10 = {
+ "C01": " Borrows C12's Have-path scenario.",
+ "C03": " Directories named like the start of the previous entry's directory.",
+ "C05": " Duplicate info keys in different length spellings.",
+ "C08": " Choke / Unchoke before the handshake while pieces complete elsewhere.",
+ "C09": " Gated upload scenario (held-back broadcasts): a Piece is wrong when wire and manager's record both say choked and no decision is in flight.",
+ "C10": " Borrows C12's Have-path scenario.",
+ "C11": " Borrows C12's Have-path scenario.",
+ "C12": " Invariants 'owned / announced implies stored'; Have-path scenario with a choice between the announced and a rarer freed piece.",
+ "C16": " White space, NUL, FF, 0xFF substituted / inserted / appended around every corpus document.",
+ "C18": " Re-announces for every proper subset of owned pieces (short last piece).",
+ "C19": " Good replies that list nobody.",
+ "C20": " Real-socket run under the paused clock: a peer that floods requests and then neither reads nor writes.",
+}
 
 def main():
     checks = []
     for pid in sorted(CHECKS):
         level, technique, engine, text, note, ref = CHECKS[pid]
-        text = text + ROUND3.get(pid, "") + ROUND4.get(pid, "") + ROUND5.get(pid, "") + ROUND5B.get(pid, "") + ROUND6.get(pid, "") + ROUND7.get(pid, "") + ROUND8.get(pid, "") + ROUND9.get(pid, "")
+        text = text + ROUND3.get(pid, "") + ROUND4.get(pid, "") + ROUND5.get(pid, "") + ROUND5B.get(pid, "") + ROUND6.get(pid, "") + ROUND7.get(pid, "") + ROUND8.get(pid, "") + ROUND9.get(pid, "") + ROUND10.get(pid, "")
         checks.append({
             "property_id": pid,
             "quick_cmd": "./check %s --tier quick" % pid,
